@@ -172,7 +172,7 @@ impl<O: Operator<Out = E>> Operator for StateReader<O> {
     }
 }
 
-fn agg_e(key: u16, v: i64, ts: i64) -> E {
+pub fn agg_e(key: u16, v: i64, ts: i64) -> E {
     E {
         id: mix(TAG_AGG, key as u64),
         key,
@@ -610,6 +610,32 @@ impl<'a> Builder<'a> {
                 self.probe(s, path, 0, "start")
             }
             BinOp::Join(kind, form) => self.join(l, r, kind, form),
+            BinOp::KeyedJoinAssoc(agg) => {
+                let lk = l.group_by_fold(
+                    |e| e.key,
+                    (agg.unit(), i64::MIN),
+                    move |acc: &mut (i64, i64), e: E| {
+                        acc.0 = agg.step(acc.0, e.v);
+                        acc.1 = acc.1.max(e.ts);
+                    },
+                    move |acc: &mut (i64, i64), o: (i64, i64)| {
+                        acc.0 = agg.merge(acc.0, o.0);
+                        acc.1 = acc.1.max(o.1);
+                    },
+                );
+                let rk = r.group_by(|e| e.key);
+                boxed(lk.join(rk).unkey().map(|(k, ((v, ts), b))| join_e(k, Some(&agg_e(k, v, ts)), Some(&b))))
+            }
+            BinOp::KeyedMergeAssoc(agg) => {
+                let lk = l.group_by_reduce(|e| e.key, move |a: &mut E, b: E| *a = agg.combine(a, &b));
+                let rk = r.group_by(|e| e.key);
+                boxed(
+                    lk.merge(rk)
+                        .reduce(move |a: &mut E, b: E| *a = agg.combine(a, &b))
+                        .unkey()
+                        .map(|(k, e)| E { key: k, pad: vec![], ..e }),
+                )
+            }
             BinOp::IntervalJoin { lower, upper, keyed } => {
                 if keyed {
                     let lk = l.group_by(|e| e.key);
